@@ -1246,6 +1246,39 @@ class Executor:
     # -------------------------------------------------------------------------------------------
     # execution
     # -------------------------------------------------------------------------------------------
+    def control_digest(self, st):
+        """decided Result / ControlFlow / Option<Result> cases in all frames' locals (what steers early returns)"""
+        out = []
+        for f in st.frames:
+            for loc, addr in f.locals.items():
+                v = st.store.get(addr)
+                if isinstance(v, EnumV) and isinstance(v.discr, int) and (v.ty.startswith('Result') or v.ty.startswith('ControlFlow')):
+                    out.append((loc, v.discr))
+        return tuple(out)
+
+    def concrete_digest(self, st):
+        """the concrete (path-determined) parts of all frames' locals: enum discriminants, concrete ints and bools.
+        Used by coarse state merging so that states that differ in a decided case are never merged."""
+        out = []
+        for f in st.frames:
+            for loc, addr in f.locals.items():
+                v = st.store.get(addr)
+                if isinstance(v, EnumV) and isinstance(v.discr, int):
+                    d = [v.discr]
+                    for pl in v.payload.get(v.discr, {}).values():
+                        if isinstance(pl, EnumV) and isinstance(pl.discr, int):
+                            d.append(pl.discr)
+                    out.append((loc, tuple(d)))
+                elif isinstance(v, Bool):
+                    c = self.concrete_bool(v.e)
+                    if c is not None:
+                        out.append((loc, c))
+                elif isinstance(v, Int):
+                    c = self.concrete_int(v.e)
+                    if c is not None:
+                        out.append((loc, c))
+        return tuple(out)
+
     def enter_block(self, st, frame, bb):
         n = frame.visits.get(bb, 0) + 1
         if n > self.unwind:
